@@ -384,6 +384,22 @@ impl Binder {
                 .any(|child| self.contains_subquery(*child))
     }
 
+    /// Returns true if the expression `id` contains a scalar subquery, which only `plan_apply`
+    /// can turn into a plan.
+    pub(super) fn contains_scalar_subquery(&self, id: Id) -> bool {
+        let expr = self.node(id);
+        match expr {
+            Node::Max1Row(_) => true,
+            // the subquery of `IN` and `EXISTS` is a plan of its own
+            Node::In([expr, _]) => self.contains_scalar_subquery(*expr),
+            Node::Exists(_) => false,
+            _ => expr
+                .children()
+                .iter()
+                .any(|child| self.contains_scalar_subquery(*child)),
+        }
+    }
+
     /// Extract all subqueries from `id` and generate [`Apply`](Node::Apply) plans.
     fn plan_apply(&mut self, id: &mut Id, plan: &mut Id) {
         let mut expr = self.node(*id).clone();
